@@ -267,8 +267,8 @@ type n10Out struct {
 	info n10Info
 }
 
-func n10Cluster(preload []n09Op) (*n09Env, string) {
-	e, err := n09NewEnv(&n09Case{Kind: "cluster", Ring: 65536, RingMax: 65536, Followers: 1})
+func n10Cluster(preload []n09Op, noLoop bool) (*n09Env, string) {
+	e, err := n09NewEnv(&n09Case{Kind: "cluster", Ring: 65536, RingMax: 65536, Followers: 1, NoLoop: noLoop})
 	if err != nil {
 		return nil, "cannot start the cluster: " + err.Error()
 	}
@@ -297,7 +297,7 @@ func n10Cluster(preload []n09Op) (*n09Env, string) {
 		e.send(op)
 	}
 	// a first record so that there is a position to converge to
-	e.send(n09Op{K: "lock", Db: 0, Key: 200, Id: 200, E: 600, EF: 0x0100})
+	e.send(n09Op{K: "lock", Db: 0, Key: 200, Id: 200, E: 3600, EF: 0x0100})
 	if key, viol, inc := e.syncAndCheck(false); inc != "" || (viol != "" && !vIsKnown(key)) {
 		rep := e.report()
 		e.close()
@@ -311,7 +311,7 @@ func n10Cluster(preload []n09Op) (*n09Env, string) {
 
 func n10RunCase(c *n10Case) (out n10Out) {
 	// ---- run F: through the follower
-	e, why := n10Cluster(c.Preload)
+	e, why := n10Cluster(c.Preload, false)
 	if e == nil {
 		out.info.inconclusive = why
 		return
@@ -466,7 +466,7 @@ func n10RunCase(c *n10Case) (out n10Out) {
 	closed = true
 
 	// ---- run L: the accepted requests straight to a leader
-	e2, why := n10Cluster(c.Preload)
+	e2, why := n10Cluster(c.Preload, false)
 	if e2 == nil {
 		out.info.inconclusive = why
 		return
